@@ -68,6 +68,7 @@ var cores = []string{
 	"spin-quiet-elseif", "spin-quiet-else", "spin-quiet-switch", "spin-quiet-try", "spin-quiet-nested",
 	"block-fanin-send", "block-fanout-recv",
 	"block-recv-if", "block-recv-arg", "block-recv-switch", "block-recv-ok-target", "block-recv-value-target", "block-send-target",
+	"go-after-failed-go", "go-after-failed-go-nil", "go-after-failed-go-throw", "go-churn-failing",
 	"foreign-close", "foreign-close-blocked", "foreign-close-in-go", "foreign-feed", "foreign-drain", "foreign-drain-range", "foreign-drain-ok", "foreign-relay",
 }
 
@@ -116,7 +117,7 @@ var wrapKinds = []struct {
 	n int // number of variants
 }{
 	{"if", 5}, {"switch", 2}, {"loop", 4}, {"try-body", 8}, {"catch", 2}, {"finally", 5},
-	{"func", 7}, {"funcvar", 2}, {"anon", 2}, {"module", 1}, {"go", 5}, {"defer", 3}, {"expr", 34}, {"hostcallback", 2},
+	{"func", 7}, {"funcvar", 2}, {"anon", 2}, {"module", 1}, {"go", 5}, {"defer", 6}, {"expr", 34}, {"hostcallback", 2},
 }
 
 const nExpr = 34
@@ -271,6 +272,16 @@ func renderCore(core string, u string) string {
 		return "c" + u + " = make(chan int64, 1)\nc" + u + " <- 1\nnv" + u + " = make(chan int64)\nfl" + u + " = {}\nfl" + u + "[<-nv" + u + "], ok" + u + " = <-c" + u
 	case "block-send-target":
 		return "nv" + u + " = make(chan int64)\ncs" + u + " = [make(chan int64, 1)]\ncs" + u + "[<-nv" + u + "] <- 1"
+	// goroutines that END BY FAILING (a host function that panics, a nil function value, a throw), then further go
+	// statements, then the endless part: whatever the interpreter keeps about its goroutines must survive a failure
+	case "go-after-failed-go":
+		return "go boom()\ngw" + u + " = make(chan int64)\ngo func() { gw" + u + " <- 1 }()\n<-gw" + u + "\ngo func(a) { tick() }(1)\nfor { tick() }"
+	case "go-after-failed-go-nil":
+		return "gn" + u + " = hid(nil)\ntry { go gn" + u + "() } catch { }\ngo boom()\nfunc gf" + u + "(a, b, c, d, e) { tick() }\nfor i" + u + " = 0; i" + u + " < 3; i" + u + "++ { go gf" + u + "(1, 2, 3, 4, 5) }\ngc" + u + " = make(chan int64)\n<-gc" + u
+	case "go-after-failed-go-throw":
+		return "func gt" + u + "() { throw \"gt\" }\ngo gt" + u + "()\ngo func(a, r...) { boom() }(1, 2)\ngd" + u + " = make(chan int64, 1)\ngo func() { gd" + u + " <- 1 }()\nfor v" + u + " in gd" + u + " { tick() }"
+	case "go-churn-failing":
+		return "for { go boom(); go func() { tick() }(); tick(); sleep(1) }"
 	// the cancelled run meets goroutines an earlier call left behind (foreignPrelude)
 	case "foreign-close":
 		return "close(fch)\nfor { tick() }"
@@ -414,6 +425,15 @@ func wrap(w W, body, u string) string {
 			return "func g" + u + "(a, b...) {\n" + body + "\n}\ngo g" + u + "(1, 2, 3)\n<-make(chan int64)"
 		}
 	case "defer":
+		switch w.A % 6 {
+		// the body of the invocation FAILS after it has registered the deferred call that never ends
+		case 3:
+			return "func f" + u + "() {\ndefer func() {\n" + body + "\n}()\nthrow \"fb\"\n}\nf" + u + "()"
+		case 4:
+			return "func d" + u + "(a, b, c, d, e) {\n" + body + "\n}\nfunc f" + u + "() {\ndefer d" + u + "(1, 2, 3, 4, 5)\nreturn hid([1])[5]\n}\nf" + u + "()"
+		case 5:
+			return "defer func() {\n" + body + "\n}()\nthrow \"tb\""
+		}
 		switch w.A % 3 {
 		case 0:
 			return "func f" + u + "() {\ndefer func() {\n" + body + "\n}()\nreturn 1\n}\nf" + u + "()"
@@ -772,6 +792,7 @@ func run(t *testing.T, c *harness.Case, verbose bool, onlyDefers bool) *harness.
 			mu.Unlock()
 		})
 		e.Define("hid", func(x interface{}) interface{} { simrt.Yield("host"); return x })
+		e.Define("boom", func() { simrt.Yield("host"); panic("boom") })
 		e.Define("sleep", func(ms int64) { simrt.Sleep(time.Duration(ms) * time.Millisecond) })
 		e.Define("call", func(f func()) { simrt.Yield("host"); f() })
 		e.Define("call1", func(f func(interface{})) { simrt.Yield("host"); f(int64(1)) })
